@@ -84,6 +84,21 @@ package lease_set
 //@   }
 //@ }
 
+// C02: the fields an accepted LeaseSet exposes are the encoded ones:
+// destination, 256-byte encryption key, signing key, lease count, leases.
+//@ lemma C02_LeaseSetFields(data []byte) {
+//@   ls, err := ReadLeaseSet(data)
+//@   if err == nil {
+//@     db, e := ls.dest.Bytes()
+//@     assert(e == nil && len(db)+256 <= len(data) && seqeq(db, data[:len(db)]))
+//@     off := len(db)
+//@     assert(ls.encryptionKey != nil && seqeq(ls.encryptionKey.Bytes(), data[off:off+256]))
+//@     sk := ls.signingKey.Bytes()
+//@     assert(off+256+len(sk)+1 <= len(data) && seqeq(sk, data[off+256:off+256+len(sk)]))
+//@     assert(ls.leaseCount == int(data[off+256+len(sk)]) && len(ls.leases) == ls.leaseCount)
+//@   }
+//@ }
+
 // C01: re-serialising an accepted LeaseSet reproduces the bytes it was parsed
 // from (ReadLeaseSet returns no remainder: it consumes up to the end of the
 // signature and ignores what follows).
